@@ -469,7 +469,7 @@ Fixpoint completion_loop_py (fuel : nat) (wid : nat) (i : nat) (s : cst) : optio
     end
   end.
 
-(* the repaired loop (fixes/D14.patch: `for mailbox_id in list(owned_mailboxes)`): iterates over a snapshot *)
+(* the current loop (`for mailbox_id in list(owned_mailboxes)`, /repo 046ff56): iterates over a snapshot *)
 Fixpoint completion_loop_copy (wid : nat) (l : list nat) (s : cst) : option cst :=
   match l with
   | [] => Some s
@@ -486,8 +486,9 @@ Fixpoint completion_loop_copy (wid : nat) (l : list nat) (s : cst) : option cst 
       end
   end.
 
-(* Everything from here on is parametrised by [fx]: false = the loop as it is in /repo (D14), true = the loop of
-   fixes/D14.patch.  The harness selects the variant by probing the implementation; the theorems hold for both. *)
+(* Everything from here on is parametrised by [fx]: true = the loop of /repo since 046ff56 (iterates over a copy),
+   false = the loop before that commit (D14).  The harness selects the variant by probing the implementation (true on
+   the current tree); the theorems hold for both. *)
 Section Fix.
 Variable fx : bool.
 
@@ -638,60 +639,59 @@ Definition schedule (nw : nat) (ts : list task) (asg : assignment) : option (lis
          else None
   end.
 
-(* DetachedServer.handle_cancel_comp_task; None = raises (KeyError: D4 territory) *)
-Definition cancel_comp (nw : nat) (id : nat) (s : sstate) : option (sstate * sout * list addr) :=
-  match lookup_n id (s_tasks s) with
+(* DetachedServer.handle_cancel_comp_task(conn, request) (as of /repo 50308af).  Only the requester's own live task
+   (id in clients[conn] and in tasks) is cancelled: tasks[id], its mailbox and mailbox_to_task_dict[mailbox] are
+   popped, the id leaves clients[conn], CANCEL(root) is broadcast.  Anything else is only acknowledged.
+   None = raises (KeyError: conn not in clients, or a table entry that the invariant guarantees is missing). *)
+Definition cancel_comp (nw : nat) (conn id : nat) (s : sstate) : option (sstate * sout * list addr) :=
+  match lookup_n conn (s_clients s) with
   | None => None
-  | Some (mb, conn) =>
-    match lookup_n mb (s_boxes s) with
-    | None => None
-    | Some _ =>
-      let s1 := set_s_boxes (remove_n mb (s_boxes s)) s in
-      let r :=
-        match lookup_n conn (s_clients s1) with
-        | None => Some s1
-        | Some ids => if mem_nat id ids
-                      then Some (set_s_clients (put_n conn (remove_first id ids) (s_clients s1)) s1)
-                      else None
-        end in
-      match r with
-      | None => None
-      | Some s2 =>
+  | Some ids =>
+    let ack := if mem_nat conn (s_closed s) then [] else [(conn, CCancelAck)] in
+    match (if mem_nat id ids then lookup_n id (s_tasks s) else None) with
+    | None => Some (s, mkO [] ack, [])
+    | Some (mb, _) =>
+      match lookup_n mb (s_boxes s), lookup_n mb (s_m2t s) with
+      | Some _, Some _ =>
         let a := (0, mb, 0) in
-        Some (s2,
-              mkO (broadcast nw (MCancel a))
-                  (if mem_nat conn (s_closed s2) then [] else [(conn, CCancelAck)]),
-              [a])
+        Some (set_s_clients (put_n conn (remove_first id ids) (s_clients s))
+                (set_s_m2t (remove_n mb (s_m2t s))
+                (set_s_boxes (remove_n mb (s_boxes s))
+                (set_s_tasks (remove_n id (s_tasks s)) s))),
+              mkO (broadcast nw (MCancel a)) ack, [a])
+      | _, _ => None
       end
     end
   end.
 
-Fixpoint cancel_all (nw : nat) (ids : list nat) (s : sstate) : option (sstate * sout * list addr) :=
+Fixpoint cancel_all (nw : nat) (conn : nat) (ids : list nat) (s : sstate) : option (sstate * sout * list addr) :=
   match ids with
   | [] => Some (s, no_out, [])
   | id :: r =>
-    match cancel_comp nw id s with
+    match cancel_comp nw conn id s with
     | None => None
     | Some (s1, o1, i1) =>
-      match cancel_all nw r s1 with
+      match cancel_all nw conn r s1 with
       | None => None
       | Some (s2, o2, i2) => Some (s2, out_app o1 o2, i1 ++ i2)
       end
     end
   end.
 
-(* DetachedServer.handle_disconnect(conn); [order] = iteration order of the python set clients[conn] *)
+(* DetachedServer.handle_disconnect(conn): close; cancel every task in clients[conn] (snapshot [order] = iteration
+   order of the python set); pop clients[conn]; pop the remaining (delivered) tasks of the connection *)
 Definition disconnect (nw : nat) (conn : nat) (order : list nat) (s : sstate) : option (sstate * sout * list addr) :=
   match lookup_n conn (s_clients s) with
   | None => None
   | Some ids =>
     if list_eqb (sort_nat order) (sort_nat ids) then
-      let s1 := set_s_closed (conn :: s_closed s) (set_s_clients (remove_n conn (s_clients s)) s) in
-      match cancel_all nw order s1 with
+      let s1 := set_s_closed (conn :: s_closed s) s in
+      match cancel_all nw conn order s1 with
       | None => None
       | Some (s2, o, iss) =>
-        let gone := filter (fun e => Nat.eqb (snd (snd e)) conn) (s_tasks s2) in
-        let s3 := set_s_tasks (filter (fun e => negb (Nat.eqb (snd (snd e)) conn)) (s_tasks s2)) s2 in
+        let s2' := set_s_clients (remove_n conn (s_clients s2)) s2 in
+        let gone := filter (fun e => Nat.eqb (snd (snd e)) conn) (s_tasks s2') in
+        let s3 := set_s_tasks (filter (fun e => negb (Nat.eqb (snd (snd e)) conn)) (s_tasks s2')) s2' in
         let s4 := set_s_m2t (filter (fun e => negb (mem_nat (fst e) (map (fun g => fst (snd g)) gone))) (s_m2t s3)) s3 in
         Some (s4, o, iss)
       end
@@ -756,7 +756,7 @@ Definition sreq (nw : nat) (c : nat) (r : creq) (asg : assignment) (s : sstate)
           end
         end
       end
-  | CCancel id => cancel_comp nw id s
+  | CCancel id => cancel_comp nw c id s
   | CDisconnect order => disconnect nw c order s
   end.
 
